@@ -1,80 +1,206 @@
+// C03 — a cached response only answers the exact question and audience it
+// was stored for.
+//
+// Oracle: provenance markers (universe.go). The stub answers every question
+// with a record whose rdata names the full preimage it was produced for, so a
+// reply says which admission it came from; a cache hit is legal only if that
+// preimage equals the asked one (ASCII-case-insensitive on the name, nothing
+// broader) and the client is inside the answer's ECS audience.
+//
+// Workload: (i) forged collisions on every route (forged.go), (ii) key
+// agreement between the wire and presentation key functions (keys.go),
+// (iii) interleaved audiences (audience.go).
 package main
 
 import (
-	"context"
+	"encoding/json"
 	"fmt"
-	"net"
-	"time"
 
-	"github.com/miekg/dns"
-	"github.com/semihalev/sdns/middleware/cache"
-	"github.com/semihalev/sdns/zzverif/stack"
+	"github.com/semihalev/sdns/zzverif/vlib"
 )
 
-func main() {
-	cfg := stack.DefaultConfig()
-	cfg.Chaos = false
-	cfg.DNSSEC = "on"
-	cfg.ECS.Enabled = true
-	st, err := stack.New(stack.Options{
-		Config: cfg,
-		Stub: func(ctx context.Context, req *stack.StubRequest) *stack.StubReply {
-			m := new(dns.Msg)
-			rr := &dns.TXT{Hdr: dns.RR_Header{Name: req.Q.Name, Rrtype: dns.TypeTXT, Class: req.Q.Qclass, Ttl: 300}, Txt: []string{fmt.Sprintf("seq=%d cd=%v ecs=%v", req.Seq, req.CD, req.ECS)}}
-			m.Answer = []dns.RR{rr}
-			if req.OPT != nil {
-				m.Extra = append(m.Extra, dns.Copy(req.OPT))
-			}
-			rep := &stack.StubReply{Msg: m}
-			if req.ECS != nil {
-				rep.HasECSScope = true
-				rep.ECSScope = 20
-			}
-			return rep
-		},
-	})
-	if err != nil {
-		panic(err)
+const batchSize = 400
+
+func variantFor(batch int) cfgVariant {
+	if batch%4 == 3 {
+		return variantPlain
 	}
-	defer st.Close()
-	fmt.Println(st.Handlers())
-	for _, class := range []uint16{1, 2, 3, 4, 254, 255, 7} {
-		q := new(dns.Msg)
-		q.SetQuestion("a.c03t.", dns.TypeTXT)
-		q.Question[0].Qclass = class
-		q.SetEdns0(1232, false)
-		pkt, _ := q.Pack()
-		r := st.ServeRaw("203.0.113.9:4000", "udp", pkt)
-		fmt.Println("class", class, "strict", r.Strict, "handled", r.Handled, "wrote", r.Wrote, msgs(r.Msg))
-		r = st.ServeRaw("203.0.113.9:4000", "udp", pkt)
-		fmt.Println("   again", r.Strict, msgs(r.Msg), cache.VerifC03WireCounters()["served"])
-		r = st.ServeMsg("203.0.113.9:4000", "udp", q.Copy())
-		fmt.Println("   msg", msgs(r.Msg), st.Stub().Total())
-	}
-	// ECS
-	for i, cl := range []string{"198.51.100.7", "198.51.101.9", "198.51.200.1"} {
-		q := new(dns.Msg)
-		q.SetQuestion("e.c03t.", dns.TypeTXT)
-		q.SetEdns0(1232, false)
-		o := q.IsEdns0()
-		o.Option = append(o.Option, &dns.EDNS0_SUBNET{Code: dns.EDNS0SUBNET, Family: 1, SourceNetmask: 32, Address: net.ParseIP(cl).To4()})
-		pkt, _ := q.Pack()
-		r := st.ServeRaw("203.0.113.9:4000", "udp", pkt)
-		fmt.Println("ecs", i, cl, r.Strict, msgs(r.Msg), st.Stub().Total())
-	}
-	for _, e := range st.Cache().VerifStore().VerifDump() {
-		fmt.Printf("%+v\n", e)
-	}
-	_ = time.Now
+	return variantMain
 }
 
-func msgs(m *dns.Msg) string {
-	if m == nil {
-		return "<nil>"
+// batches runs n cases in batches, each batch on a fresh stack.
+func batches(r *vlib.Run, n int, fn func(e *env, idx int)) {
+	for start, b := 0, 0; start < n; start, b = start+batchSize, b+1 {
+		e := newEnv(r, variantFor(b))
+		end := start + batchSize
+		if end > n {
+			end = n
+		}
+		for i := start; i < end; i++ {
+			fn(e, i)
+		}
+		e.close()
+		r.Progress("%d cases", end)
 	}
-	s := dns.RcodeToString[m.Rcode]
-	for _, rr := range m.Answer {
-		s += " | " + rr.String()
+}
+
+func runForgedAll(r *vlib.Run) {
+	batches(r, r.N(3600, 60000), func(e *env, i int) {
+		e.runForged(genForged(r.RandN("forged", i), i, e.v))
+	})
+	batches(r, r.N(600, 8000), func(e *env, i int) {
+		rng := r.RandN("chase", i)
+		e.runChase(genChase(rng, i), rng)
+	})
+	batches(r, r.N(800, 10000), func(e *env, i int) {
+		e.runFailure(genFailure(r.RandN("failure", i), i, e.v))
+	})
+	n := r.N(600, 8000)
+	for start := 0; start < n; start += batchSize {
+		e := newEnv(r, variantMain) // the cut index only exists with DNSSEC on
+		for i := start; i < start+batchSize && i < n; i++ {
+			e.runCut(genCut(r.RandN("cut", i), i))
+		}
+		e.close()
 	}
-	return s
+}
+
+func runAudiences(r *vlib.Run) {
+	rounds := r.N(60, 900)
+	for round := 0; round < rounds; round++ {
+		v := variantAud
+		if round%5 == 4 {
+			v = variantMain // no prefetch: entries simply age out
+		}
+		e := newEnv(r, v)
+		e.runAudRound(genAudRound(r.RandN("aud", round), round, 120))
+		r.Count("audience_internal_refresh_queries", int(e.u.internalCalls.Load()))
+		e.close()
+		r.Progress("audience round %d/%d", round+1, rounds)
+	}
+}
+
+func replay(r *vlib.Run, raw json.RawMessage) {
+	var vc struct {
+		Kind    string          `json:"kind"`
+		Variant cfgVariant      `json:"variant"`
+		Case    json.RawMessage `json:"case"`
+		Index   int             `json:"index"`
+	}
+	if err := json.Unmarshal(raw, &vc); err != nil {
+		r.Inconclusive("replay: " + err.Error())
+		return
+	}
+	if vc.Kind == "key" || vc.Kind == "key-malformed" {
+		var kc keyCase
+		if err := json.Unmarshal(raw, &kc); err != nil {
+			r.Inconclusive("replay: " + err.Error())
+			return
+		}
+		checkKeyCase(r, &kc, r.RandN("keys", kc.Index))
+		return
+	}
+	e := newEnv(r, vc.Variant)
+	defer e.close()
+	un := func(v any) bool {
+		if err := json.Unmarshal(vc.Case, v); err != nil {
+			r.Inconclusive("replay: " + err.Error())
+			return false
+		}
+		return true
+	}
+	switch vc.Kind {
+	case "forged":
+		var c forgedCase
+		if un(&c) {
+			e.runForged(&c)
+		}
+	case "chase":
+		var c chaseCase
+		if un(&c) {
+			e.runChase(&c, r.RandN("chase", c.Index))
+		}
+	case "failure":
+		var c failureCase
+		if un(&c) {
+			e.runFailure(&c)
+		}
+	case "cut":
+		var c cutCase
+		if un(&c) {
+			e.runCut(&c)
+		}
+	case "audience":
+		var c audCase
+		if un(&c) {
+			c.Ops = c.Ops[:min(len(c.Ops), c.Upto+1)]
+			e.runAudRound(&c)
+		}
+	default:
+		r.Inconclusive("replay: unknown case kind " + vc.Kind)
+	}
+}
+
+func main() {
+	r := vlib.Start("C03", "exploration")
+	if raw := r.ReplayCase(); raw != nil {
+		replay(r, raw)
+		r.Finish("replay of one recorded case")
+	}
+	runKeys(r)
+	runForgedAll(r)
+	runAudiences(r)
+
+	// every route exercised with a forged entry confirmed in place …
+	for _, route := range []string{rMsg, rWire, rWireTCP, rEngine, rStoreGet, rStoreLookup, "after-purge",
+		"chase-" + rWire, "chase-" + rEngine, "chase-" + rMsg,
+		"failure-" + rWire, "failure-" + rMsg, "failure-" + rStoreGet,
+		"cut-" + rWire, "cut-" + rMsg, "cut-" + rStoreGet} {
+		r.Require("forged_probe/"+route, 40)
+	}
+	for _, dim := range []string{"name", "type", "class", "cd", "scope", "chase-name", "chase-class", "chase-cd",
+		"failure-name", "failure-type", "failure-class", "failure-cd", "failure-scope", "cut-name", "cut-class", "cut-cd"} {
+		r.Require("forged_probe_dim/"+dim, 40)
+	}
+	for _, sub := range []string{"letter", "hi-case", "punct-case", "label-cut", "unicode-fold", "addr-v4", "addr-v6", "bits", "family", "scoped-under-shared"} {
+		r.Require("forged_probe_sub/"+sub, 30)
+	}
+	for _, w := range []string{"with-key", "scoped", "cache-set", "set-entry", "set-entry-scoped", "replace"} {
+		r.Require("forged_probe_writer/"+w, 40)
+	}
+	r.Require("forged_entries_filed", 3000)
+	r.Require("forged_behaved_as_miss", 3000)
+	r.Require("forged_probe_wire_born", 500)
+	// … and the same routes DO serve legitimately admitted entries
+	for _, route := range []string{rMsg, rWire, rWireTCP, rEngine, rStoreGet, rStoreLookup,
+		"wire-exact-bytes", "scoped-key", "ascii-case-variant",
+		"chase-" + rWire, "chase-" + rEngine, "chase-" + rMsg, "wire-chase-composed",
+		"failure-" + rWire, "failure-" + rMsg, "failure-" + rStoreGet, "wire-failure-bytes",
+		"cut-" + rWire, "cut-" + rMsg, "cut-" + rStoreGet, "wire-cut-bytes"} {
+		r.Require("legit_hit/"+route, 30)
+	}
+	r.Require("key_names_checked", 50000)
+	r.Require("key_prefix_variants_checked", 20000)
+	r.Require("key_ascii_case_variants", 2000)
+	r.Require("key_distinct_name_pairs", 20000)
+	r.Require("key_distinct_pairs_nonascii_case", 300)
+	r.Require("key_names_presentation_over_pool_buffer", 100)
+	r.Require("key_malformed_names_checked", 1000)
+	r.Require("audience_probes", 4000)
+	r.Require("audience_scoped_hits_inside_scope_v4", 100)
+	r.Require("audience_scoped_hits_inside_scope_v6", 50)
+	r.Require("audience_shared_hits_by_ecs_clients", 50)
+	r.Require("audience_misses_with_foreign_entry_present", 300)
+	r.Require("audience_hits_cd1", 100)
+	r.Require("audience_refreshes", 100)
+	r.Require("audience_hits_on_refreshed_entries", 50)
+	r.Require("audience_hits_on_refreshed_entries_resp_cd_differs", 20)
+	r.Require("audience_purges", 100)
+
+	r.Assume("the answer cache's exported pre-keyed writers (SetFromResponseWithKey/Scoped, Cache.Set, SetEntryWithKey, ReplaceIfCurrent) and, for the failure cache and the cut wire index, the c03 hooks (record an identity under another identity's hash) stand in for a real 64-bit key collision")
+	r.Assume("ReplaceIfCurrent's contract is that the replacement takes over the slot's CD partition and ECS scope: forged writes through it differ from the slot in name/type/class only")
+	r.Assume("audience of an answer = the forwarded ECS source truncated to min(SCOPE, SOURCE) bits (RFC 7871 §7.3.1); a client is inside it iff its own policy-clamped source prefix is at least that long and lies within it; [ecs] min_scope equals the forwarding ceiling (the default), so the cardinality cap never widens a scope")
+	r.Assume("a cached-failure reply carries no marker: it is attributed to 'some failure the stub really returned for that name/type/class/CD under an audience covering the client'; a subtree-cut reply is attributed through the marker in its SOA")
+	r.Finish(fmt.Sprintf("forged (pair, route) probes: an entry admitted for A filed under the key of B (A,B differing in exactly one of name beyond ASCII case / type / class / CD / ECS audience) then B asked through %s, %s, %s, %s, %s, %s, alias chase with a forged target, failure and subtree-cut lookups (wire and decoded), and after Purge; each followed by a same-preimage control that must be served from cache by that route; key agreement over generated wire names; audience histories with interleaved lookups, refreshes, purges and clock advances. A case is distinct non-trivial by (config, dimension, sub-kind, writer, route, purge) when the forged entry was confirmed in place and B was answered from upstream, and by (scope, CD, route) for audience hits/misses",
+		rMsg, rWire, rWireTCP, rEngine, rStoreGet, rStoreLookup))
 }
